@@ -150,7 +150,7 @@ def pmap(fn, items, chunks: int | None = None, jobs: int | None = None):
     """Map fn over items in forked worker processes, preserving order. fn must be a module-level function."""
     items = list(items)
     jobs = jobs or NCPU
-    if jobs <= 1 or len(items) < 8:
+    if jobs <= 1 or len(items) < 2:
         return [fn(x) for x in items]
     ctx = mp.get_context("fork")
     with ctx.Pool(jobs, initializer=_init_worker) as pool:
